@@ -503,7 +503,7 @@ func runElements(c *mc.Ctx, r *mc.Result) {
 		maxLen = 4
 	}
 	rds := resolvers()
-	r.Bounds["elements"] = fmt.Sprintf("all entry strings of length<=%d over %q, as for=V, by=..;for=V;proto=.. and as X-Forwarded-For entry; alone, before and after a valid entry; x %d resolvers", maxLen, alpha, len(rds))
+	r.Bounds["elements"] = fmt.Sprintf("all entry strings of length<=%d over %q plus 960 compositions {quote, brackets} x 4 addresses x {brackets, port} x {brackets, quote}, as for=V, by=..;for=V;proto=.. and as X-Forwarded-For entry; alone, before and after a valid entry; x %d resolvers", maxLen, alpha, len(rds))
 	type built struct{ x, f fox.ClientIPResolver }
 	bs := make([]built, len(rds))
 	for i, rd := range rds {
@@ -559,6 +559,19 @@ func runElements(c *mc.Ctx, r *mc.Result) {
 		}
 	}
 	rec("")
+	// bracket / port / quote compositions around real addresses (too long for the brute-force part)
+	for _, pre := range []string{"", "[", "[[", "\"", "\"[", "[\""} {
+		for _, core := range []string{"7.7.7.7", "2606:4700::1", "10.0.0.1", "fe80::1"} {
+			for _, mid := range []string{"", "]", "]]", ":80", "]:80", "]]:80", ":80]", "]:80]"} {
+				for _, post := range []string{"", "]", "\"", "]\"", "\"]"} {
+					idx++
+					if c.Mine(idx) {
+						visit(pre + core + mid + post)
+					}
+				}
+			}
+		}
+	}
 }
 
 func replayLists(c *mc.Ctx, raw json.RawMessage) string {
